@@ -80,6 +80,18 @@ def run(rep, tier, rng):
         to_specs.append(spec)
         cases.append([10] + spec)
         meta.append(("to", spec))
+    # ring-only multipatches: every sequence of ring kinds {OuterRing, InnerRing, FirstRing, Ring} of length <= 3 and a
+    # sample of longer ones (grouping into polygons depends on the order of the kinds)
+    import itertools
+    seqs = [list(t) for k in (1, 2, 3) for t in itertools.product((2, 3, 4, 5), repeat=k)]
+    seqs += [[rng.choice((2, 3, 4, 5)) for _ in range(rng.randint(4, 6))] for _ in range(120 if tier == "thorough" else 40)]
+    for kinds in seqs:
+        spec = [31, 1, len(kinds)]
+        for kd in kinds:
+            spec += [kd] + shapes.flat_pts(shapes.gen_ring_pts(rng, 4, 3, "small", closed=True))
+        to_specs.append(spec)
+        cases.append([10] + spec)
+        meta.append(("to", spec))
     # ---- geometry -> shape -> geometry
     for i in range(n):
         v = rng.choice(["point", "line", "linestring", "polygon", "multipoint", "multiline", "multipolygon", "multipolygon",
@@ -122,7 +134,7 @@ def run(rep, tier, rng):
                 cases.append([12, code] + p)
                 meta.append(("dims", (code, p)))
     rep.cov["rule"] = ("%d shapes of all 13 types and the null shape (polygons with several outer rings and holes, ring-only and "
-                       "strip/fan multipatches) converted to geo-types and back; %d geo-types geometries of every variant (Point, "
+                       "strip/fan multipatches, every sequence of ring kinds of length <= 3) converted to geo-types and back; %d geo-types geometries of every variant (Point, "
                        "Line, LineString, Polygon, MultiPoint, MultiLineString, MultiPolygon with holes, GeometryCollection, "
                        "Rect, Triangle; also a one-coordinate LineString) converted to shapes and back; Point/PointM/PointZ x "
                        "measure pool {real, NO_DATA, just above/below, -1e38, NaN, +-inf, f64::MIN} through the geo-traits "
